@@ -18,7 +18,8 @@ RULE = (
 	'random schemas from VERIF_SEED as CATS text, parsed and expanded by the real code: 1-3 abstract factories (aligned or not, 1-2 '
 	'discriminators in either order, initializers shuffled, repeated, for non-discriminator members, rarely missing; optional abstract '
 	'intermediate level that may override), 2-5 descendants per factory declared interleaved, any of them overriding inherited initializers, descendants holding '
-	'struct-typed members (plain, aligned, other descendants), count/size arrays, sizeof pairs; holder structs (aligned or not) with '
+	'struct-typed members (plain, aligned, other descendants), count/size arrays whose size member is builtin, alias or enum typed, '
+	'declared in place or in an inlined header, sizeof pairs; holder structs (aligned or not) with '
 	'arrays of factories, aligned/unaligned structs, descendants, bytes; plus symbol and nem all_generated.cats. A case is one '
 	'(schema, observable) comparison; non-trivial = the schema has at least one factory or array.')
 TRUSTED_BASE = [
@@ -36,13 +37,15 @@ ASSUMPTIONS = [
 SIG_ORDER = '_propagate_unaligned result depends on the iteration order of struct_names (member type of a marked descendant is itself a descendant)'
 
 KINDS = ['NONE', 'SOME', 'MORE', 'LAST']
+SIZE_MEMBER_TYPES = ['uint8', 'uint16', 'uint32', 'Count', 'Count', 'ByteSize', 'Height', 'Kind']
 
 
 def gen_schema(rng, options=None):
 	# pylint: disable=too-many-locals,too-many-branches,too-many-statements
 	options = options or {}
 	lines = [
-		'using Height = uint64', 'using Key = binary_fixed(32)', '',
+		'using Height = uint64', 'using Key = binary_fixed(32)', 'using Count = uint16', 'using ByteSize = uint32', '',
+		'inline struct CountHeader', '\thcount = Count', '\thsize = ByteSize', '\thplain = uint8', '',
 		'enum Kind : uint16', '\tNONE = 0', '\tSOME = 1', '\tMORE = 2', '\tLAST = 513', '',
 		'@is_aligned', 'struct ElemA', '\tkey = uint64', '',
 		'struct ElemU', '\tkey = uint32', '\tweight = Height', '',
@@ -116,7 +119,7 @@ def gen_schema(rng, options=None):
 					members.append(f'\t{target} = Thing')
 				elif not options.get('no_arrays_in_descendants'):
 					count = fresh('count')
-					members.append(f'\t{count} = uint8')
+					members.append(f'\t{count} = {rng.choice(SIZE_MEMBER_TYPES)}')
 					members.append(f'\t{fresh("items")} = array({rng.choice(["uint8", "ElemA", "ElemU", "Plain"])}, {count})')
 					if rng.random() < 0.3:
 						members.append(f'\t{fresh("more")} = array(uint8, {count})')
@@ -144,8 +147,15 @@ def gen_schema(rng, options=None):
 			element = rng.choice(['ElemA', 'ElemA', 'ElemU', 'Plain', 'uint8', 'int8'] + [entry['name'] for entry in factories] + descendants[:3])
 			if rng.random() < 0.25:
 				element = rng.choice(['Key', 'Kind', 'Height'])  # arrays of aliases / enums, in aligned and unaligned structs
-			body.append(f'\t{count} = {rng.choice(["uint8", "uint16"])}')
-			if rng.random() < 0.2:
+			# the size member: builtin integer, alias or enum typed (the validator only asks that the member exists), declared here or
+			# arriving through an inlined header
+			if rng.random() < 0.25:
+				if not any('inline CountHeader' in line for line in body):
+					body.insert(0, '\tinline CountHeader')
+				count = rng.choice(['hcount', 'hsize', 'hplain'])
+			else:
+				body.append(f'\t{count} = {rng.choice(SIZE_MEMBER_TYPES)}')
+			if rng.random() < 0.3:
 				body.append('\t@is_byte_constrained')
 			body.append(f'\t{fresh("items")} = array({element}, {count})')
 		if rng.random() < 0.3:
@@ -464,6 +474,7 @@ class Checker:
 					if not later and size_field.extensions.bound_field is not field:
 						self.fail_property(f'{name}.{size_field.name}: count/size member is not bound to the array {field.name} it measures', case)
 					ctx.count('bound:count-or-size')
+					ctx.count('bound:size-member-type:' + ('builtin' if not isinstance(size_field.field_type, str) else str(size_field.field_type)))
 				if field.is_size_reference:
 					target = next(item for item in model.fields if item.name == field.value)
 					if extension.bound_field is not target or not any(item is field for item in target.extensions.size_fields):
